@@ -1,9 +1,8 @@
 (* C09 - names bound inside scoped constructs never leak or clobber. Statements only.
-   PARTIAL: the store-level frame theorems below are proved for all states; that every
-   evaluator function writes only to the current scope or to scopes it created itself
-   (so that the frame theorem applies to whole evaluations) is so far supported by the
-   correspondence check only. *)
-From Plush Require Import model.Bytes model.Ctx model.Value model.Eval proofs.EvalProofs.
+   The one-step store theorems come first; the second half states the property
+   for WHOLE evaluations, for every program, state and fuel (proofs/ScopeProofs.v,
+   proofs/FrameProofs.v: induction on fuel through all 27 evaluator functions). *)
+From Plush Require Import model.Bytes model.Ctx model.Ast model.Value model.Eval proofs.EvalProofs proofs.CtxProofs proofs.ScopeProofs proofs.FrameProofs.
 
 (* New(): every existing context answers every key exactly as before *)
 Theorem C09_new_child_frame : forall G (s : store value) p c k, (c < length s)%nat ->
@@ -31,3 +30,75 @@ Proof. exact block_with_error. Qed.
 Print Assumptions C09_new_child_frame.
 Print Assumptions C09_fresh_scope_frame_partial.
 Print Assumptions C09_block_restores_scope.
+
+(* ================= whole evaluations =================
+   A scope is a frame of the context store (frames are numbered in creation
+   order; getctx value (sctx st) i is frame i; nctxs st their number; scur st
+   the current one).  final_state r is the state a result carries, on the
+   value path and on the error path alike. *)
+
+(* (a) whatever is evaluated, and however it ends, the current scope afterwards
+   is the scope it started in: every construct that enters a scope leaves it *)
+Theorem C09_scope_restored : forall G fuel st e, SC (scur st) (eval G fuel st e).
+Proof. exact eval_restores_scope. Qed.
+Print Assumptions C09_scope_restored.
+Theorem C09_scope_restored_exec : forall G fuel st prog out, SCo (scur st) (exec_prog G fuel st prog out).
+Proof. exact exec_restores_scope. Qed.
+
+(* (b) of the frames that existed, an evaluation can change only the current
+   one (top-level let / assignment persist there); no frame disappears *)
+Theorem C09_only_the_current_scope_is_written : forall G fuel st e s,
+  final_state (eval G fuel st e) = Some s ->
+  scur s = scur st /\ (nctxs st <= nctxs s)%nat /\
+  forall i, (i < nctxs st)%nat -> i <> scur st -> getctx value (sctx s) i = getctx value (sctx st) i.
+Proof. exact eval_touches_only_current_frame. Qed.
+Print Assumptions C09_only_the_current_scope_is_written.
+
+(* (c) a for loop - iterable, loop variables, everything its body binds or
+   assigns, nested to any depth - changes NO frame that existed before it ... *)
+Theorem C09_for_changes_no_outer_scope : forall G fuel st k v it b s,
+  final_state (eval_for G (S fuel) st k v it b) = Some s ->
+  scur s = scur st /\ forall i, (i < nctxs st)%nat -> getctx value (sctx s) i = getctx value (sctx st) i.
+Proof. exact for_changes_no_frame. Qed.
+Print Assumptions C09_for_changes_no_outer_scope.
+
+(* ... so every name looked up afterwards has the value it had before: nothing
+   leaked, nothing clobbered *)
+Theorem C09_for_leaves_every_name_unchanged : forall G fuel st k v it b s name,
+  (scur st < nctxs st)%nat ->
+  final_state (eval_for G (S fuel) st k v it b) = Some s ->
+  Ctx.value value VNil (sctx s) (scur s) name = Ctx.value value VNil (sctx st) (scur st) name.
+Proof. exact for_leaves_every_name_unchanged. Qed.
+Print Assumptions C09_for_leaves_every_name_unchanged.
+
+(* (d) the same for a partial (with or without a layout) ... *)
+Theorem C09_partial_leaves_every_name_unchanged : forall G fuel st pname data ctx s name,
+  (scur st < nctxs st)%nat ->
+  final_state (partial_call G fuel st pname data ctx) = Some s ->
+  Ctx.value value VNil (sctx s) (scur s) name = Ctx.value value VNil (sctx st) (scur st) name.
+Proof. exact partial_leaves_every_name_unchanged. Qed.
+Print Assumptions C09_partial_leaves_every_name_unchanged.
+
+(* ... and for a stored block replayed with its own data (contentOf, a block
+   helper with its own context) *)
+Theorem C09_content_block_leaves_every_name_unchanged : forall G fuel st blk parent data s name,
+  (scur st < nctxs st)%nat ->
+  final_state (block_in_child G fuel st blk parent data) = Some s ->
+  Ctx.value value VNil (sctx s) (scur s) name = Ctx.value value VNil (sctx st) (scur st) name.
+Proof. exact block_in_child_leaves_every_name_unchanged. Qed.
+Print Assumptions C09_content_block_leaves_every_name_unchanged.
+
+(* (e) user functions: the body runs in a freshly created scope holding the
+   parameters; it changes no frame that existed before the call (the arguments
+   themselves are evaluated in the caller's scope, where (b) applies) *)
+Theorem C09_function_body_changes_no_outer_scope : forall G fuel st st1 n kvs body s,
+  cnew G st = (st1, n) ->
+  final_state (eval_block G fuel (set_all (with_cur st1 n) n kvs) body) = Some s ->
+  forall i, (i < nctxs st)%nat -> getctx value (sctx s) i = getctx value (sctx st) i.
+Proof. exact fresh_scope_changes_no_frame. Qed.
+Print Assumptions C09_function_body_changes_no_outer_scope.
+
+(* the premise (the current scope exists) holds in the state every render starts from *)
+Example C09_initial_state_is_well_formed :
+  let '(s, root) := Ctx.new_root value VNil is_nil [] [] [] [] in (root < length s)%nat.
+Proof. vm_compute. auto. Qed.
